@@ -1,0 +1,13 @@
+//go:build verif
+
+package concurrent
+
+// VerifHook receives verification trace events when the `verif` build tag is set.
+// A hook may block: it is then a scheduler gate for the calling goroutine.
+var VerifHook func(ev string, args ...any)
+
+func vhook(ev string, args ...any) {
+	if h := VerifHook; h != nil {
+		h(ev, args...)
+	}
+}
